@@ -23,7 +23,7 @@ PROP = dict(
         quick=dict(cases=480, shards=16, profiles=["debug"]),
         thorough=dict(cases=32000, shards=16, profiles=["debug", "release"]),
     )],
-    extra_targets=["Props/C16comp.vo", "Vec/CvInstProofs.vo"],
+    extra_targets=["Props/C04comp.vo", "Props/C16comp.vo", "Vec/CvInstProofs.vo"],
     rule="commit/rollback histories on PcoVec/LZ4Vec/ZstdVec (+EagerVec wrappers), retention 1..4, 8-26 operations: pushes "
          "(1 value .. 1.5 pages, exactly filling / overflowing a page), truncations (to 0, on a boundary, just below / at the "
          "last committed length, anywhere), commits with strictly increasing stamps (stamps of an abandoned future are "
@@ -53,14 +53,19 @@ ENGINES = [
 TEXT = dict(
     design_ref="DESIGN.md section 4, C04 / C16 (compressed format)",
     technique="Coq proof of commit/rollback exactness at every baseline + extracted-model differential",
-    text=("Proof (Props/C04comp.v, C16comp.v): for the model of the compressed vector, for every well-formed state with its "
-          "change baseline, any edits, a commit, any edits and a rollback: either the rollback returns exactly the contents "
-          "(as read by collect) and stamp of the previous committed state and re-establishes the invariant and the baseline "
-          "(so every theorem applies again: continuation), or the state is in the decidable class `rollback_refuses` "
-          "(stored length below the record's truncation start) and the rollback returns IndexTooHigh leaving the vector "
-          "unchanged; right after a commit (only pushes since) it always succeeds. The chain across a truncating commit is "
-          "refuted by a vm_compute witness (known finding). A failed rollback never changes the vector; save_change_file "
-          "keeps at most k records and drops those of an abandoned future."),
-    note=("Not proved: C16_comp_count (exactly min(k,n) consecutive rollbacks) and chains of depth > 1 as a theorem over a "
-          "record stack; both are covered differentially and by the snapshot-stack oracle only."),
+    text=("Proof (Props/C04comp.v, C16comp.v): the model of the compressed vector refines a snapshot-stack reference "
+          "{contents, stamp, baseline, stack of committed snapshots with retention k} along EVERY commit/rollback history "
+          "outside the decidable known class (C04_comp_chain: pushes, truncations that do not go below the truncation start "
+          "of the retained record of the current stamp, commits with increasing stamps, rollback, rollback_before; any "
+          "length, depth and interleaving); a rollback pops exactly the top snapshot (what collect() returns, and the "
+          "stamp), a commit keeps the newest k-1 older records valid over the new pages; rollback_before never stops "
+          "midway there and ends where the reference walk ends; outside that discipline a refusal leaves a state reached "
+          "by successful rollbacks (C04_comp_rollback_before_refusal) and a failed single rollback changes nothing. "
+          "C16_comp_count: after n commits from the initial import exactly min(k, n) consecutive rollbacks succeed, the "
+          "next is refused. The chain across a truncating commit is refuted by a vm_compute witness (known finding). "
+          "Records are consumed exactly (expect_end)."),
+    note=("After a write() outside a commit, a reset or a re-import the stack refinement is re-entered only through "
+          "C04_comp_continuation (C03 refinement of the restored state) and C04_comp_rollback_step (depth 1 from any "
+          "baseline); a theorem carrying the stack across those operations is not proved. Fault injection on the change "
+          "directory is the raw engine's."),
 )
